@@ -382,6 +382,7 @@ def run(ctx):
                 "order, manifest content before/after the section, missing required field, malformed TOML / field types; "
                 "layouts with one file missing or alternative extensions; builds json, yaml, json5. Non-trivial = rejected or "
                 ">=2 listed locales; distinct by configuration and outcome",
+        "directed_rule": "Then directed cases: every feasible pair of values of the quantifier's dimensions (evidence field `pairwise`) left empty by the above is filled by a case built for it (checks/cov_cfg.py); a value counts only when the configuration is not rejected before it is examined.",
         "samples": [{"cargo_toml": m["cargo_toml"], "format": m["fmt"], "impl": m["line"].replace(m["dir"], "<dir>")[:400]}
                     for m in metas[:2] + metas[-3:]],
         "traces_validated_against_impl": len(metas), "disagreements": len(dis), "spec_failures_on_impl": len(bad),
